@@ -1,3 +1,239 @@
-/-! # C11 — property theorems (stub: filled in when the property's model is built) -/
+import ScenicModel.Props.C11Final
+import ScenicModel.Props.C11Syntax
+import ScenicModel.Model.LTLBuild
+import ScenicModel.Gen.LTL
+/-!
+# C11 — temporal requirements accept exactly the traces satisfying the formula
+
+Property theorems, instantiated on the data regenerated on every run:
+
+* `Gen.LTL.monCfg`  — the scan bound of `UntilMonitor` in the installed `rv_ltl/monitor.py`;
+* `Gen.LTL.rule`    — the verdict sets of `DynamicScenario._step` / `_stop`, `falsifiedByInner`, the initial
+                      `lastValue`, and whether `_addDynamicRequirement` gives a running scenario a monitor;
+* `Gen.LTL.ctorMap` — which rv_ltl proposition each class of `propositions.py` builds, operands in which order;
+* `Gen.LTL.sugar`   — the expansions of rv_ltl's sugar monitors (`Eventually`, `Always`, `Implies`).
+
+## The full statements, and what is proved
+
+FULL (C11):  for every formula `f`, trace `σ`, number of steps `N ≥ 1`:
+  (1) `run monCfg rule f σ N = accepted ↔ sat σ N f 0`                          (`accept_iff`)
+  (2) `run … = rejectedAt t ∧ t + 1 < N → no continuation of the first t+1 steps satisfies f`
+                                                                                  (`early_reject_hopeless`)
+  (3) the same for a `require` executed inside a running scenario              (`dynamic_require_monitored`)
+
+With the sources as they are, (1) and (2) are **false** for some formulas and (3) is false for all
+non-trivial ones — see the `*_witness` theorems (each is replayed on the real code by `tools/props/c11.py`):
+
+* the installed rv_ltl scans `range(i, min(i + k, last))` in `UntilMonitor`, which is only right at `i = 0`:
+  an `until` below a temporal operator is mis-evaluated (`nested_until_witness`);
+* `UntilMonitor` commits to the first index where its right operand is *currently* truthy: with a temporal
+  right operand an earlier index may still become true, so its FALSE is premature
+  (`until_premature_false_witness`);
+* `_addDynamicRequirement` appends to `_temporalRequirements` after `_start` built the monitors
+  (`dynamic_require_witness`).
+
+Proved (`…_partial` = the full statement restricted to the stated fragment; nothing else is missing):
+(1) on `okZero monCfg false ∧ okZero monCfg true`, (2) on `okZero monCfg true`, (3) under
+`rule.dynMonitored = true`.  `verdict_sound_complete_exact_bound` shows that (1)'s exactness part holds for
+**every** formula as soon as rv_ltl uses the textbook bound, so the fragment is forced by the package only.
+-/
 namespace Scenic.C11
+open Scenic.LTL Scenic.Gen.LTL
+
+/-! ## side conditions on the generated data (re-decided by the kernel on every run) -/
+
+/-- `_step` rejects exactly on FALSE, `_stop` exactly on a falsy last verdict, the scene check exactly on FALSE -/
+theorem gen_rule_canonical : rule.Canonical := by decide
+
+/-- before the first update `lastValue` is TRUE (a scenario stopped before its first step is not rejected) -/
+theorem gen_init_last : rule.initLast = 4 := by decide
+
+/-- every class of `propositions.py` builds its rv_ltl namesake with the operands in source order, so the
+    formula the monitor runs is the formula that was written -/
+theorem gen_ctor_map_canonical : ctorMap = canonicalCtorMap := by decide
+
+/-- exactly the temporal operators mark a requirement as temporal (so that it is monitored, not evaluated once) -/
+theorem gen_temporal_classes : temporalClasses = canonicalTemporal := by decide
+
+/-- rv_ltl's sugar monitors expand as `evalAt` assumes -/
+theorem gen_sugar_canonical : sugar = canonicalSugar := by decide
+
+/-! ## (A) the verdict read at the end is exact -/
+
+/-- **verdict_sound_complete** restricted to the fragment `okZero monCfg false`: after `n ≥ 1` steps the
+    verdict is truthy iff the `n`-step trace satisfies the formula (strong next, strong until). -/
+theorem verdict_sound_complete_partial (f : F) (hf : f.okZero monCfg false = true) (σ : Trace) (n : Nat)
+    (hn : 0 < n) : truthy (evalAt monCfg σ n f 0) = sat σ n f 0 := by
+  have := verdict_iff_sat_zero monCfg σ n hn f hf
+  rw [Bool.eq_iff_iff, truthy_iff]; exact this
+
+example : (F.until (.atom 0) (.or (.next (.atom 1)) (.always (.not (.atom 0))))).okZero monCfg false = true := by decide
+
+/-- the same statement for **all** formulas, for any monitor whose `until` uses the textbook bound -/
+theorem verdict_sound_complete_exact_bound (c : MonCfg) (hc : c.untilShift = false) (f : F) (σ : Trace)
+    (n i : Nat) (hi : i < n) : truthy (evalAt c σ n f i) = sat σ n f i := by
+  have := verdict_iff_sat_all c σ n f (okAll_of_noShift c hc f) i hi
+  rw [Bool.eq_iff_iff, truthy_iff]; exact this
+
+/-- witness: outside the fragment the full statement fails for the installed rv_ltl —
+    `next (a until b)` on a = T F F, b = F T F is satisfied, the monitor says FALSE -/
+theorem nested_until_witness :
+    let f := F.next (.until (.atom 0) (.atom 1))
+    let σ := ofRows [[true, false], [false, true], [false, false]]
+    sat σ 3 f 0 = true ∧ evalAt { untilShift := true } σ 3 f 0 = 1 ∧ f.okZero { untilShift := true } false = false := by
+  decide
+
+/-- the witness applies to the configuration extracted from the installed package -/
+theorem nested_until_witness_applies (h : monCfg.untilShift = true) :
+    ∃ (f : F) (σ : Trace) (n : Nat), 0 < n ∧ sat σ n f 0 = true ∧ evalAt monCfg σ n f 0 = 1 := by
+  refine ⟨F.next (.until (.atom 0) (.atom 1)), ofRows [[true, false], [false, true], [false, false]], 3, by decide, ?_⟩
+  have : monCfg = { untilShift := true } := by cases hm : monCfg; simp_all
+  rw [this]; decide
+
+/-! ## (B) a definite verdict is final -/
+
+/-- **false_is_final** restricted to `okZero monCfg true`: FALSE after `n` steps ⇒ no continuation satisfies -/
+theorem false_is_final_partial (f : F) (hf : f.okZero monCfg true = true) (σ σ' : Trace) (n m : Nat)
+    (hn : 0 < n) (hag : Agree σ σ' n) (hnm : n ≤ m) (hv : evalAt monCfg σ n f 0 = 1) : sat σ' m f 0 = false :=
+  false_is_final monCfg σ σ' n m f hf hn hag hnm hv
+
+theorem true_is_final_partial (f : F) (hf : f.okZero monCfg true = true) (σ σ' : Trace) (n m : Nat)
+    (hn : 0 < n) (hag : Agree σ σ' n) (hnm : n ≤ m) (hv : evalAt monCfg σ n f 0 = 4) : sat σ' m f 0 = true :=
+  true_is_final monCfg σ σ' n m f hf hn hag hnm hv
+
+example : (F.implies (.always (.atom 0)) (.until (.next (.atom 1)) (.not (.atom 0)))).okZero monCfg true = true := by
+  decide
+example : evalAt monCfg (ofRows [[true], [false]]) 2 (.always (.atom 0)) 0 = 1 := by decide
+
+/-- witness: with a temporal right operand `until` says FALSE too early (for either scan bound) —
+    `a until ((eventually b) or a)` on a = F T, b = F F is FALSE after two steps, yet the continuation
+    b₂ = T satisfies it -/
+theorem until_premature_false_witness (shift : Bool) :
+    let f := F.until (.atom 0) (.or (.eventually (.atom 1)) (.atom 0))
+    let σ := ofRows [[false, false], [true, false], [false, true]]
+    evalAt { untilShift := shift } σ 2 f 0 = 1 ∧ sat σ 3 f 0 = true ∧ evalAt { untilShift := shift } σ 3 f 0 = 4
+      ∧ f.okZero { untilShift := shift } true = false := by
+  cases shift <;> decide
+
+/-! ## (C) `always` of a non-temporal condition is rejected at once -/
+
+theorem always_atomic_false_immediate (p : F) (hp : p.prop = true) (σ : Trace) (n k : Nat) (hk : k < n)
+    (hfalse : p.pval (σ k) = false) : evalAt monCfg σ n (.always p) 0 = 1 :=
+  always_prop_false_immediate monCfg σ n p hp k hk hfalse
+
+example : (F.implies (.atom 0) (.not (.atom 1))).prop = true ∧
+    (F.implies (.atom 0) (.not (.atom 1))).pval (ofRows [[true, true]] 0) = false := by decide
+
+/-- … so the simulation is rejected in that very step (if not before) -/
+theorem always_atomic_rejected_by_then (p : F) (hp : p.prop = true) (σ : Trace) (N k : Nat) (hk : k < N)
+    (hfalse : p.pval (σ k) = false) : ∃ t, t ≤ k ∧ run monCfg rule (.always p) σ N = .rejectedAt t := by
+  have hrule := gen_rule_canonical
+  have hv := always_prop_false_immediate monCfg σ (k + 1) p hp k (by omega) hfalse
+  have hit : (fun t => rule.stepReject.contains (evalAt monCfg σ (t + 1) (.always p) 0)) k = true := by
+    simp only [hrule.1, hv]; decide
+  obtain ⟨t, ht, htk⟩ := findFrom_of_hit (p := fun t => rule.stepReject.contains (evalAt monCfg σ (t + 1) (.always p) 0))
+    (i := 0) (fuel := N) (Nat.zero_le k) (by omega) hit
+  exact ⟨t, htk, by unfold run; rw [ht]⟩
+
+theorem always_atomic_not_rejected_while_true (p : F) (hp : p.prop = true) (σ : Trace) (n : Nat) (hn : 0 < n)
+    (hall : ∀ k, k < n → p.pval (σ k) = true) : evalAt monCfg σ n (.always p) 0 = 3 :=
+  always_prop_presumably_true monCfg σ n p hp hn hall
+
+/-! ## (D) Boolean connectives and non-temporal sub-formulas -/
+
+theorem not_boolean (f : F) (σ : Trace) (n i : Nat) :
+    truthy (evalAt monCfg σ n (.not f) i) = !truthy (evalAt monCfg σ n f i) := truthy_not _ _ _ _ _
+theorem and_boolean (fs : List F) (σ : Trace) (n i : Nat) :
+    truthy (evalAt monCfg σ n (F.andL fs) i) = fs.all fun f => truthy (evalAt monCfg σ n f i) := truthy_andL _ _ _ _ _
+theorem or_boolean (fs : List F) (σ : Trace) (n i : Nat) :
+    truthy (evalAt monCfg σ n (F.orL fs) i) = fs.any fun f => truthy (evalAt monCfg σ n f i) := truthy_orL _ _ _ _ _
+theorem implies_boolean (a b : F) (σ : Trace) (n i : Nat) :
+    truthy (evalAt monCfg σ n (.implies a b) i) = (!truthy (evalAt monCfg σ n a i) || truthy (evalAt monCfg σ n b i)) :=
+  truthy_implies _ _ _ _ _ _
+
+/-- a non-temporal (sub-)formula is evaluated in the current step only, by the ordinary truth tables -/
+theorem nontemporal_current_step (p : F) (hp : p.prop = true) (σ : Trace) (n i : Nat) :
+    evalAt monCfg σ n p i = b4 (p.pval (σ i)) := evalAt_prop monCfg σ n p hp i
+
+/-! ## (E) Scenic's rule -/
+
+/-- **accept_iff** on the fragment: accepted ⇔ the trace from the step the requirement takes effect to the
+    end of its scenario satisfies the formula -/
+theorem accept_iff_partial (f : F) (h0 : f.okZero monCfg false = true) (h1 : f.okZero monCfg true = true)
+    (σ : Trace) (N : Nat) (hN : 0 < N) : run monCfg rule f σ N = .accepted ↔ sat σ N f 0 = true :=
+  accept_iff monCfg rule gen_rule_canonical f h0 h1 σ N hN
+
+/-- the same with the single hypothesis `okZero monCfg true` (which contains the exactness fragment) -/
+theorem accept_iff_final_fragment (f : F) (h1 : f.okZero monCfg true = true) (σ : Trace) (N : Nat) (hN : 0 < N) :
+    run monCfg rule f σ N = .accepted ↔ sat σ N f 0 = true :=
+  accept_iff monCfg rule gen_rule_canonical f (okZero_mono monCfg f h1) h1 σ N hN
+
+example : run monCfg rule (.until (.atom 0) (.atom 1)) (ofRows [[true, false], [false, true]]) 2 = .accepted := by decide
+example : run monCfg rule (.eventually (.atom 0)) (ofRows [[false], [false]]) 2 = .rejectedAt 1 := by decide
+
+/-- a requirement that takes effect in absolute step `d` is judged on the steps from `d` on -/
+theorem accept_iff_shifted_partial (f : F) (h0 : f.okZero monCfg false = true) (h1 : f.okZero monCfg true = true)
+    (σ : Trace) (d N : Nat) (hN : 0 < N) :
+    run monCfg rule f (shift σ d) N = .accepted ↔ sat (shift σ d) N f 0 = true :=
+  accept_iff monCfg rule gen_rule_canonical f h0 h1 (shift σ d) N hN
+
+/-- **early rejection only when hopeless** on the fragment `okZero monCfg true` -/
+theorem early_reject_hopeless_partial (f : F) (h1 : f.okZero monCfg true = true) (σ : Trace) (N t : Nat)
+    (hN : 0 < N) (h : run monCfg rule f σ N = .rejectedAt t) (ht : t + 1 < N) (σ' : Trace) (m : Nat)
+    (hag : Agree σ σ' (t + 1)) (hm : t + 1 ≤ m) : sat σ' m f 0 = false :=
+  early_reject_hopeless monCfg rule gen_rule_canonical f h1 σ N t hN h ht σ' m hag hm
+
+example : run monCfg rule (.always (.atom 0)) (ofRows [[true], [false], [true]]) 3 = .rejectedAt 1 := by decide
+
+/-- the initial-scene check only rejects scenes whose simulation would be rejected in step 0 anyway -/
+theorem scene_check_consistent (f : F) (σ : Trace) (N : Nat) (hN : 0 < N) (h : sceneOK monCfg rule f σ = false) :
+    run monCfg rule f σ N = .rejectedAt 0 :=
+  scene_reject_consistent monCfg rule gen_rule_canonical f σ N hN h
+
+example : sceneOK monCfg rule (.always (.atom 0)) (ofRows [[false]]) = false := by decide
+
+/-! ## (F) requirements executed while a simulation is running -/
+
+/-- **runtime setup block** (a sub-scenario started by `do`): same criterion, counted from the step the
+    sub-scenario starts — needs `Implies.evaluate` for non-temporal implications -/
+theorem runtime_setup_accept_iff_partial (hI : rule.impliesEval = true) (f : F) (h0 : f.okZero monCfg false = true)
+    (h1 : f.okZero monCfg true = true) (σ : Trace) (N : Nat) (hN : 0 < N) :
+    runRuntimeSetup monCfg rule f σ N = .accepted ↔ sat σ N f 0 = true :=
+  LTL.runtime_setup_accept_iff monCfg rule gen_rule_canonical hI f h0 h1 σ N hN
+
+/-- the part that holds of the code as it stands: formulas without a non-temporal `implies` at the root path -/
+theorem runtime_setup_accept_iff_no_implies (f : F) (h0 : f.okZero monCfg false = true)
+    (h1 : f.okZero monCfg true = true) (he : f.prop = true → f.evaluable rule.impliesEval = true)
+    (σ : Trace) (N : Nat) (hN : 0 < N) :
+    runRuntimeSetup monCfg rule f σ N = .accepted ↔ sat σ N f 0 = true := by
+  unfold runRuntimeSetup
+  cases hp : f.prop with
+  | true =>
+    simp only [if_true]
+    rw [immediate_eq_run monCfg rule gen_rule_canonical f hp (he hp) σ N hN]
+    exact accept_iff monCfg rule gen_rule_canonical f h0 h1 σ N hN
+  | false => simp only [Bool.false_eq_true, if_false]; exact accept_iff monCfg rule gen_rule_canonical f h0 h1 σ N hN
+
+example : runRuntimeSetup monCfg rule (.and (.tt) (.and (.atom 0) (.not (.atom 1)))) (ofRows [[true, false]]) 1 = .accepted := by decide
+
+/-- **dynamic_require_monitored**: holds as soon as `_addDynamicRequirement` gives a running scenario a monitor
+    (and `Implies` can be evaluated) -/
+theorem dynamic_require_monitored (hd : rule.dynMonitored = true) (hI : rule.impliesEval = true) (f : F)
+    (h0 : f.okZero monCfg false = true) (h1 : f.okZero monCfg true = true) (σ : Trace) (N : Nat) (hN : 0 < N) :
+    runDynamic monCfg rule f σ N = .accepted ↔ sat σ N f 0 = true :=
+  LTL.dynamic_require_monitored monCfg rule gen_rule_canonical hd hI f h0 h1 σ N hN
+
+/-- witness: as the code stands a temporal requirement is never looked at — `require always a` with `a` false in
+    its second step is accepted -/
+theorem dynamic_require_witness (hd : rule.dynMonitored = false) :
+    runDynamic monCfg rule (.always (.atom 0)) (ofRows [[true], [false], [true]]) 3 = .accepted ∧
+      sat (ofRows [[true], [false], [true]]) 3 (.always (.atom 0)) 0 = false :=
+  ⟨dynamic_require_unmonitored_vacuous monCfg rule hd _ rfl _ _, by decide⟩
+
+/-- witness: as the code stands `require a implies b` executed at run time raises instead of deciding -/
+theorem runtime_implies_witness (hI : rule.impliesEval = false) :
+    runDynamic monCfg rule (.implies (.atom 0) (.atom 1)) (ofRows [[false, false]]) 1 = .crashed ∧
+      sat (ofRows [[false, false]]) 1 (.implies (.atom 0) (.atom 1)) 0 = true :=
+  ⟨(implies_not_evaluable_crashes monCfg rule hI _ _ rfl _ _).1, by decide⟩
+
 end Scenic.C11
